@@ -14,7 +14,14 @@ The C10 spec predicates (`Rbacx/Spec/Reload.lean` + convergence on the settle su
 by the driver on the implementation's own trace.
 
 All times are multiples of 1/64 s (and the literal 0.2), so every value is exact both as a binary
-float and as an integer number of microseconds (the model's time unit)."""
+float and as an integer number of microseconds (the model's time unit).
+
+Tie by regeneration: `check_and_reload_async`, `_register_error` and the state-creating statements of `__init__` are translated from
+the CURRENT source text on every run (harness/pytolean_state.py, plugin extractors/src_translation_reloader.py); the per-run obligation
+`Rbacx/Run/C10_translated.lean` proves the translation equal to the model's `check` / `registerError` / `init` (and histories of
+translated checks equal to `run`), and `translated_vs_python` (harness/reloader_tr.py, evaluator `Rbacx/Run/SrcEvalReloader.lean`) runs the
+translation against the real methods with scripted collaborators.  When the obligation does not check, the search is widened; a history on
+which the real reloader violates a clause is reported as `VIOLATION … replay=…`, else the undischarged obligation itself is."""
 from __future__ import annotations
 
 import asyncio
@@ -33,6 +40,7 @@ from typing import Any
 import lib
 import proto
 import real  # noqa: F401  (sets sys.path to the repo under test)
+import reloader_tr
 from rbacx.core.cache import DefaultInMemoryCache
 from rbacx.core.engine import Guard
 from rbacx.policy import loader as rloader
@@ -1302,6 +1310,9 @@ def replay_payload(v: dict, what: str) -> dict:
             "atomic_block_assumption_broken": v.get("lock_violations") or []}
 
 
+translated_vs_python = reloader_tr.translated_vs_python      # the comparison itself lives in harness/reloader_tr.py
+
+
 F9_LINE = ("F9 HTTPPolicySource.etag() is the locally cached tag: server change after a load is never seen "
            "(witness corpus/C10_F9_http_etag.json)")
 
@@ -1332,6 +1343,18 @@ def check(run: lib.Run, audit: dict) -> int:
     findings = {f["id"]: f for f in lib.load_findings() if f.get("property") == "C10"}
     violations: list[tuple[str, bool]] = []
     tally = Tally()
+    # check_and_reload_async / _register_error as they are written NOW, translated into Lean, are proved equal to the model's check /
+    # registerError (per-run obligation); the translation itself is run against the real methods
+    tr = audit["facts"].get("translated_reloader")
+    untranslatable = isinstance(tr, dict) and "extraction_failed" in tr
+    ok_tr, detail_tr = lib.run_obligation("C10_translated")
+    run.obligation(reloader_tr.OBLIGATION, ok_tr, "discharged" if ok_tr else (str(tr["extraction_failed"]) if untranslatable else detail_tr))
+    tr_diffs: list[dict] = []
+    if untranslatable or not isinstance(tr, dict):
+        ok_py, detail_py = True, "skipped: the methods are not in the translatable subset (see C10_translated)"
+    else:
+        ok_py, detail_py = translated_vs_python(run, tr, tr_diffs)
+    run.obligation(reloader_tr.DIFFERENTIAL, ok_py, detail_py)
     with tempfile.TemporaryDirectory(prefix="c10_") as tmpdir, _Patched():
         # 1. corpus: finding witnesses and past disagreements first
         f9_witness_reproduces = False
@@ -1357,8 +1380,8 @@ def check(run: lib.Run, audit: dict) -> int:
             elif v["disagree"]:
                 run.disagreements.append(v)
         # 2. enumeration + random
-        run_cases(run, tally, all_cases(run, scale=run.boost), tmpdir)
-        if run.disagreements and not run.spec_failures and not violations:
+        run_cases(run, tally, all_cases(run, scale=run.boost * (1 if ok_tr else 2)), tmpdir)
+        if (run.disagreements or not ok_tr) and not run.spec_failures and not violations:
             run_cases(run, tally, all_cases(run, scale=4 if run.boost == 1 else 2), tmpdir)   # correspondence broke: widen the search for a failing input
         # 3. verdicts
         if run.spec_failures:
@@ -1374,6 +1397,19 @@ def check(run: lib.Run, audit: dict) -> int:
             path = run.write_replay("correspondence", replay_payload(v, "model (Rbacx.Reloader.wcheck/stepThread over worldSource) and implementation "
                                                                      "disagree on the observable trace; theorems Rbacx.C10.* no longer speak about this code")
                                     | {"count": len(run.disagreements)})
+            violations.append((path, False))
+        if not violations and not ok_tr:
+            path = run.write_replay("obligation", {
+                "what": "per-run obligation Rbacx/Run/C10_translated.lean no longer checks: the translated source of "
+                        "HotReloader.check_and_reload_async / _register_error is not proved equal to the model's check / registerError, the "
+                        "functions theorems Rbacx.C10.* are about; the widened search found no history on which the real reloader violates C10",
+                "translation": tr if untranslatable else {k: v for k, v in (tr or {}).items() if k != "lean"}, "lean": detail_tr[-1500:],
+                "translated_vs_python": detail_py, "first_disagreement": tr_diffs[:1]})
+            violations.append((path, False))
+        elif not violations and not ok_py:
+            path = run.write_replay("correspondence", {
+                "what": "translated source vs python: " + detail_py + "; the obligation C10_translated rests on a translation that CPython "
+                        "contradicts (or that could not be evaluated)", "first": tr_diffs[:1]})
             violations.append((path, False))
     # 4. F9: which variant does the code refine?
     variant = ("cached" if tally.http_cases and tally.http_cached_ok == tally.http_cases else
@@ -1402,6 +1438,16 @@ def replay(run: lib.Run, audit: dict, path: str) -> int:
         path = os.path.join(lib.VERIF, path)
     rp = json.load(open(path))
     case = rp.get("case") or rp
+    if "history" not in case:
+        # an undischarged obligation / a translated-vs-python disagreement: nothing to re-execute on the reloader histories; show the record
+        tr = audit["facts"].get("translated_reloader")
+        ok_tr, detail_tr = lib.run_obligation("C10_translated")
+        print("recorded:", json.dumps({k: v for k, v in rp.items() if k != "translation"}, default=str)[:3000])
+        print("obligation C10_translated now:", "discharged" if ok_tr else detail_tr[:1500])
+        if isinstance(tr, dict) and "extraction_failed" not in tr:
+            sink: list = []
+            print("translated vs python now:", translated_vs_python(run, tr, sink)[1], json.dumps(sink[:1], default=str)[:1500])
+        return 0 if ok_tr else 1
     with tempfile.TemporaryDirectory(prefix="c10_") as tmpdir, _Patched():
         v = run_one(case, tmpdir)
     print(f"kind={case['kind']} initial_load={case['initial_load']} cfg={CFGS[case['cfg']]}")
